@@ -32,6 +32,7 @@ type Scenario struct {
 	Clients [][]BatchSpec `json:"clients"`
 	Readers int           `json:"readers"` // reader goroutines
 	ReaderRounds int      `json:"reader_rounds"`
+	FreeReaders  int      `json:"free_readers"` // free-running only: goroutines that obtain readers in parallel with the batches and search each from 3 goroutines at once
 	Images  bool          `json:"images"`
 	Second  bool          `json:"second"` // attempt a second writer on the locked directory
 	Ids     []string      `json:"ids"`
@@ -330,6 +331,41 @@ func Run(t *testing.T, scn Scenario, sched Scheduler, workDir string, uidBase *i
 					_ = s.DoBatch(proc, uid, b.Ops, b.CB)
 				}
 			}()
+		}
+		if scn.Free {
+			// readers in real parallelism with the writers; they end before Close is called
+			for fi := 0; fi < scn.FreeReaders; fi++ {
+				proc := fmt.Sprintf("f%d", fi+1)
+				wg.Add(1)
+				cwg.Add(1)
+				go func() {
+					defer wg.Done()
+					defer cwg.Done()
+					c.Register(proc)
+					for k := 0; k < 3; k++ {
+						c.LogP(proc, "FReaderCall", "r", proc)
+						r, err := s.W.Reader()
+						if err != nil {
+							c.LogP(proc, "FReaderOpen", "r", proc, "obs", ctl.Obs{Err: err.Error()})
+							return
+						}
+						o := ctl.Observe(r, scn.Ids, true)
+						c.LogP(proc, "FReaderOpen", "r", proc, "obs", o)
+						var swg sync.WaitGroup
+						for j := 0; j < 3; j++ {
+							swg.Add(1)
+							go func() {
+								defer swg.Done()
+								o := ctl.Observe(r, scn.Ids, true)
+								c.LogP(proc, "FReaderObs", "r", proc, "obs", o)
+							}()
+						}
+						swg.Wait()
+						c.LogP(proc, "FReaderClose", "r", proc)
+						_ = r.Close()
+					}
+				}()
+			}
 		}
 		go func() { cwg.Wait(); close(clientsDone) }()
 
